@@ -922,8 +922,11 @@ where
             } => {
                 // Try to remove the victims from the cache (hash map).
                 for victim in victim_nodes {
-                    if let Some((_vic_key, vic_entry)) =
-                        self.cache.remove(unsafe { victim.as_ref().element.key() })
+                    if let Some((_vic_key, vic_entry)) = self
+                        .cache
+                        .remove_if(unsafe { victim.as_ref().element.key() }, |_, v| {
+                            Self::owns_ao_node(v, victim)
+                        })
                     {
                         // And then remove the victim from the deques.
                         Self::handle_remove(deqs, vic_entry, counters);
@@ -998,7 +1001,14 @@ where
                 next_victim = DeqNode::next_node_ptr(victim);
                 let vic_elem = &unsafe { victim.as_ref() }.element;
 
-                if let Some(vic_entry) = cache.get(vic_elem.key()) {
+                // The node is a victim only if the map's entry for its key still owns
+                // this very node. A key that was invalidated and inserted again can
+                // have a second, older node in the deque while the `Remove` op of the
+                // old entry is still on its way.
+                let vic_entry = cache
+                    .get(vic_elem.key())
+                    .filter(|e| Self::owns_ao_node(e.value(), victim));
+                if let Some(vic_entry) = vic_entry {
                     victims.add_policy_weight(vic_entry.policy_weight());
                     victims.add_frequency(freq, vic_elem.hash());
                     victim_nodes.push(victim);
@@ -1032,6 +1042,15 @@ where
         } else {
             AdmissionResult::Rejected { skipped_nodes }
         }
+    }
+
+    /// Returns `true` if the access-order deque node of `entry` is `node`.
+    #[inline]
+    fn owns_ao_node(entry: &TrioArc<ValueEntry<K, V>>, node: AoqNode<K>) -> bool {
+        entry
+            .access_order_q_node()
+            .map(|n| n.decompose_ptr() == node.as_ptr())
+            .unwrap_or(false)
     }
 
     fn handle_admit(
